@@ -50,6 +50,7 @@ type scenario struct {
 	alphabet   []string
 	extra      []string // thorough tier only
 	longReview bool     // crkit.ParamsLongReview instead of crkit.Params
+	dposV2     bool     // crkit.ParamsDPoSV2
 	warmBlocks int      // number of blocks the warm-up produces (set by validateWarmups)
 }
 
@@ -117,6 +118,17 @@ var scenarios = []*scenario{
 		extra:    []string{"e2", "trk:A:progress", "unvote:v1", "imp:vi:c2:big", "realwd"},
 	},
 	{
+		// DPoS v2 era: votes counted at 8 (next members c1, c2 elected), c1 has claimed node n1 at
+		// 9; free blocks: further claims of the elected members in the claim period, the block in
+		// which they take office (11, Committee.resetNextMembers hands NextClaimedDPoSKeys over),
+		// claims of the sitting members afterwards - rolled back across claim and committee change.
+		name:     "dposv2-claim-node",
+		dposV2:   true,
+		warm:     []string{"reg:c1+reg:c2+reg:c3", "fund", "e4", "vote:v1:a", "e", "claimnext:c1:n1"},
+		alphabet: []string{"e", "claimnext:c2:n2", "claimnext:c1:n3", "claim:c1:n3", "claim:c2:n4", "claim:c1:n1"},
+		extra:    []string{"e2", "claimnext:c2:n1", "claim:c2:n2", "imp:vi:c1:big"},
+	},
+	{
 		// the first committee's duty is about to end (second voting period 20..27, change at 28):
 		// A voter-agreed with its imprest requested, B in council review.
 		name: "re-election",
@@ -155,10 +167,15 @@ type inst struct {
 	CP [][]byte
 	// opOf[i] = operation that produced block i+1
 	opOf []string
-	err  string
+	// inert: created after the time budget ran out; does nothing
+	inert bool
+	err   string
 }
 
 func (sc *scenario) params() *config.Configuration {
+	if sc.dposV2 {
+		return crkit.ParamsDPoSV2()
+	}
 	if sc.longReview {
 		return crkit.ParamsLongReview()
 	}
@@ -167,7 +184,31 @@ func (sc *scenario) params() *config.Configuration {
 
 func histKey(sc *scenario, hist []string) string { return sc.name + "|" + strings.Join(hist, ",") }
 
+// outOfTime: the scenario's share of the time budget (or the whole budget) is used up.
+func outOfTime() bool {
+	return run.Expired() || (!scenarioDeadline.IsZero() && time.Now().After(scenarioDeadline))
+}
+
 func newInst(sc *scenario) *inst {
+	if replayLen == 0 && outOfTime() {
+		// nothing more is judged or expanded: an inert instance lets the search run out quickly
+		// (it only comes to life for the confirmation replays of a failing history)
+		atomic.StoreInt32(&expired, 1)
+		return &inst{sc: sc, inert: true}
+	}
+	return newRealInst(sc)
+}
+
+// confirming: key is a failing history whose confirmation replays are still due.
+func confirming(key string) bool {
+	if v, ok := failedEvals.Load(key); ok {
+		n := v.(*failRec).n
+		return n > 0 && n < 3
+	}
+	return false
+}
+
+func newRealInst(sc *scenario) *inst {
 	in := &inst{sc: sc, w: crkit.NewWorld(sc.params())}
 	in.D = append(in.D, nil)
 	in.CP = append(in.CP, nil)
@@ -227,6 +268,9 @@ func snapshotBytes(m *checkpoint.Manager, height uint32) []byte {
 
 func (in *inst) Ops() []string {
 	var ops []string
+	if in.inert || (replayLen == 0 && outOfTime()) {
+		return nil
+	}
 	for _, op := range in.sc.alphabet {
 		if _, err := in.w.Offer(op); err == nil {
 			ops = append(ops, op)
@@ -237,11 +281,26 @@ func (in *inst) Ops() []string {
 	return ops
 }
 
-func (in *inst) Close() { in.w.Close() }
+func (in *inst) Close() {
+	if in.w != nil {
+		in.w.Close()
+	}
+}
 
 func (in *inst) Digest() string { return histKey(in.sc, in.hist) }
 
 func (in *inst) Apply(op string) *mc.Fail {
+	if in.inert {
+		if !confirming(histKey(in.sc, append(append([]string{}, in.hist...), op))) {
+			in.hist = append(in.hist, op)
+			return nil
+		}
+		real := newRealInst(in.sc)
+		for _, o := range in.hist {
+			real.Apply(o)
+		}
+		*in = *real
+	}
 	key := histKey(in.sc, append(append([]string{}, in.hist...), op))
 	_, done := passed.Load(key)
 	if done {
@@ -262,7 +321,7 @@ func (in *inst) Apply(op string) *mc.Fail {
 		in.oracle(false) // fills diffsOf for the next step; nothing is reported for a prefix
 		return nil
 	}
-	if run.Expired() || (!scenarioDeadline.IsZero() && time.Now().After(scenarioDeadline)) {
+	if outOfTime() && !confirming(key) {
 		// time budget (shared evenly between the scenarios) used up: finish the level without
 		// judging; the result is reported as not exhaustive
 		atomic.StoreInt32(&expired, 1)
@@ -800,11 +859,14 @@ func main() {
 	total := &mc.Result{Exhaustive: true}
 	per := map[string]interface{}{}
 	start := time.Now()
-	budget := time.Duration(r.Pick(1100, 10500)) * time.Second // evid's own budget less a margin
+	// quick: evid's own budget less a margin; thorough: the check ends itself after 25 minutes
+	budget := time.Duration(r.Pick(1100, 1500)) * time.Second
 	if b := os.Getenv("VERIF_BUDGET_S"); b != "" {
 		var n int
 		if _, err := fmt.Sscan(b, &n); err == nil && n > 0 {
-			budget = time.Duration(n) * time.Second * 9 / 10
+			if b := time.Duration(n) * time.Second * 9 / 10; b < budget {
+				budget = b
+			}
 		}
 	}
 	for si, sc := range scenarios {
@@ -816,7 +878,7 @@ func main() {
 		res := mc.Explore(r, sp)
 		if atomic.SwapInt32(&expired, 0) != 0 {
 			res.Exhaustive = false
-			res.Capped = "time budget share reached: histories met after that were replayed but not judged"
+			res.Capped = "time budget share reached: the histories explored until then are fully judged, nothing was judged or expanded afterwards"
 		}
 		total.States += res.States
 		total.Transitions += res.Transitions
